@@ -1,7 +1,7 @@
 (* Extraction of the decoder models of C18 for the correspondence runner.
    Directives used: those of ExtrOcamlBasic only.  nat, positive, N stay Coq's inductive types. *)
 From Coq Require Import Extraction ExtrOcamlBasic List NArith.
-From GmsmVerif Require Import Lib.Outcome Dec.Access Dec.BerModel Dec.ByteModels Dec.Asn1Model Dec.Asn1Inst.
+From GmsmVerif Require Import Lib.Outcome Dec.Access Dec.BerModel Dec.ByteModels Dec.Asn1Model Dec.Asn1Inst Gen.Asn1Schemas.
 Extraction Language OCaml.
 Extraction "dec_model.ml"
   ber2der ber2der_budget unpad pad decrypt_gate cipherMarshal_gate cipherUnmarshal_post decompress_gate
@@ -9,4 +9,4 @@ Extraction "dec_model.ml"
   sessionState_unmarshal certificateRequestMsgGM_unmarshal
   ecc_processClientKeyExchange_gate ecc_processServerKeyExchange_gate ecdhe_processServerKeyExchange_gate
   be_value
-  Unmarshal noParams sigSchema cipherSchema certOuterSchema t1Schema t2Schema signDataToSignDigit cipherUnmarshal.
+  Unmarshal noParams sigSchema cipherSchema certOuterSchema t1Schema t2Schema signDataToSignDigit cipherUnmarshal gen_asn1_schemas.
